@@ -162,7 +162,7 @@ def _scapy_dissect_mode(tree, ob):
                     continue
                 n += 1
                 ob.violate(rel, '<module>', 'debug_dissector = ' + (src(val) if val is not None else '?'), 'scapy is switched to raise on a layer it cannot dissect: a read that ends inside the fixed-size '
-                           'fields of a message raises struct.error out of the receive callback instead of being kept as a prefix', node)
+                           'fields of a message raises struct.error out of the receive callback instead of being kept as a prefix', node, sure=True)
     if not n:
         ob.site(SESS, tree.module(SESS).tree, 'scapy dissects in its default (non-raising) mode: {} modules scanned'.format(len(tree.modules)))
 
@@ -218,6 +218,8 @@ def _padding_strippers(tree, ob):
     siblings: stripping there drops every item behind the first, the list no longer fills its declared length, and the
     message is never complete. '''
     probes = {(rel, cls) for (rel, cls, node) in _probe_classes(tree)}
+    if len(probes) < 2:
+        raise AnalysisError('C07.g: the probe classes of the receive loop are not recognised ({})'.format(sorted(probes)))
     n = 0
     for rel in (MSGS, CONTACT, EXTEND, FORMATS):
         for (r, qual, func) in tree.all_functions([rel]):
@@ -230,7 +232,7 @@ def _padding_strippers(tree, ob):
                     ob.site(rel, c, 'padding stripped by probe class ' + cls)
                 else:
                     ob.violate(rel, qual, src(c), 'trailing octets are stripped from a packet that is not one of the stream probe classes: inside a message they are the items that follow, '
-                               'which are lost (a START segment with two extension items never becomes complete)', c)
+                               'which are lost (a START segment with two extension items never becomes complete)', c, sure=True)
     ob.require(n >= 1, 'remove_padding call sites: {}'.format(n))
 
 
